@@ -242,6 +242,9 @@ theorem backupPrelude_headsOK (w : World) (hl : Late 4 w) (hn : NoDupKeys w.stor
     refine run_bind_inv (A := fun w' => HeadsOK w'.store) _ _ _ hbc ?_
     intro band _
     refine run_headsOK (AllOps.ro_fine2 ?_) _ hbc
+    refine Prog.AllOps.bind _root_.Conserve.gcLockListed_ro fun locked2 => ?_
+    split
+    · exact .fail _
     refine Prog.AllOps.bind _root_.Conserve.listBlocks_ro fun blocks => ?_
     cases basisBand with
     | none => exact .ret _
